@@ -1,3 +1,3 @@
 #!/bin/sh
 # replays this counterexample against the real build
-cd /tmp/dbg_C07b && VERIF_SCRIPT=/verif/replays/C07/VHarnessCrashRotate_2e0622e1_0/script.json VERIF_RAW_SALT=0 GOFLAGS=-mod=mod GOPROXY=off go test -vet=off -count=1 -overlay /verif/replays/C07/VHarnessCrashRotate_2e0622e1_0/overlay.json -run ^TestVerifReplay_VHarnessCrashRotate$ -v ./mint
+cd /tmp/seedrepo_C07b && VERIF_SCRIPT=/verif/replays/C07/VHarnessCrashRotate_2e0622e1_0/script.json VERIF_RAW_SALT=0 GOFLAGS=-mod=mod GOPROXY=off go test -vet=off -count=1 -overlay /verif/replays/C07/VHarnessCrashRotate_2e0622e1_0/overlay.json -run ^TestVerifReplay_VHarnessCrashRotate$ -v ./mint
